@@ -399,4 +399,8 @@ def edgeRow (ch : Rat → Rat) (g : Sampler) (s : List Bool) : List (Rat × List
     let a := accProb ch (edgeDelta g.bm g.biases s e.1.1 e.1.2)
     [(q * a, flipAt (flipAt s e.1.1) e.1.2), (q * (1 - a), s)]
 
+/-- all spin states of `n` sites in binary counting order (site 0 most significant) -/
+def statesOrdered (n : Nat) : List (List Bool) :=
+  (List.range (2 ^ n)).map fun k => (List.range n).map fun i => (k / 2 ^ (n - 1 - i)) % 2 == 1
+
 end Qmc.Classical
